@@ -119,6 +119,13 @@ func (c *FnCtx) addHeapKeys(owner, path string, ft types.Type, ms *modSet) {
 
 func (c *FnCtx) modCall(call *ast.CallExpr, ms *modSet) {
 	callee := c.calleeOf(call)
+	if callee.fn != nil && c.con != nil {
+		for _, ac := range c.con.AtCall {
+			if ac.SetVar != "" && (ac.Callee == shortKey(typesFuncKey(callee.fn)) || ac.Callee == typesFuncKey(callee.fn)) {
+				ms.ghost[ac.SetVar] = true
+			}
+		}
+	}
 	if callee.builtin != "" || callee.conv {
 		return
 	}
@@ -333,6 +340,12 @@ func (c *FnCtx) execLoop(st *State, node ast.Node, label string, bodyNode ast.No
 		t := c.specBool(env, inv.Expr)
 		c.addObl(&Obligation{Name: fmt.Sprintf("%s/loop%d/inv#%s/entry", c.key, ord, clauseID(inv, i)), Kind: "loop-inv-entry",
 			Descr: "loop invariant holds on entry", Pos: c.pos(node), Hyps: append([]string(nil), st.pc...), Goal: t, Clause: inv.Src})
+	}
+	for i, ec := range ls.Entry {
+		env := c.specEnvAt(st, pos)
+		t := c.specBool(env, ec.Expr)
+		c.addObl(&Obligation{Name: fmt.Sprintf("%s/loop%d/entry#%s", c.key, ord, clauseID(ec, i)), Kind: "loop-entry",
+			Descr: "assertion on reaching the loop", Pos: c.pos(node), Hyps: append([]string(nil), st.pc...), Goal: t, Clause: ec.Src})
 	}
 	// 2. havoc
 	ms := newModSet()
